@@ -5,12 +5,15 @@ so /repo itself and concurrently running checks are not disturbed.
 usage: run_seeds.py [seed-name-prefix ...]      e.g. run_seeds.py C03"""
 import sys, os, json, subprocess, glob, time
 ROOT = os.path.dirname(os.path.dirname(os.path.abspath(__file__)))
-WT, BD = "/tmp/seedrun_wt", "/tmp/seedrun_build"
+SLOT = ""
+if "--slot" in sys.argv:
+    i = sys.argv.index("--slot"); SLOT = "_" + sys.argv[i + 1]; del sys.argv[i:i + 2]
+WT, BD = "/tmp/seedrun_wt" + SLOT, "/tmp/seedrun_build" + SLOT
 def sh(c, **kw):
     p = subprocess.run(c, shell=True, stdout=subprocess.PIPE, stderr=subprocess.STDOUT, **kw)
     return p.returncode, p.stdout.decode("utf-8", "replace")
 import fcntl
-_lock = open("/tmp/seedrun.lock", "w")
+_lock = open("/tmp/seedrun%s.lock" % SLOT, "w")
 fcntl.flock(_lock, fcntl.LOCK_EX)      # one seed run at a time: the scratch worktree and build dir are shared
 sel = sys.argv[1:]
 seeds = sorted(d for d in os.listdir(os.path.join(ROOT, "seeded")) if os.path.exists(os.path.join(ROOT, "seeded", d, "patch.diff")))
@@ -44,6 +47,7 @@ finally:
 print(json.dumps({k: v.split(" ")[0] for k, v in results.items()}, indent=1))
 # persistent record (merged by seed) used by DESIGN.md section 9
 rf = os.path.join(ROOT, "seeded", "RESULTS.json")
+_rl = open("/tmp/seedrun_results.lock", "w"); fcntl.flock(_rl, fcntl.LOCK_EX)
 try:
     allr = json.load(open(rf))
 except Exception:
